@@ -217,6 +217,7 @@ func e2eRun(c *Ctx, seed int64, spec *e2eSpec, dir string) *e2eOutcome {
 		disrupt()
 	}
 	var pendingMut []mutation
+	releasing := 0
 	w.onAction = func(kind string) {
 		mu.Lock()
 		actions++
@@ -227,9 +228,15 @@ func e2eRun(c *Ctx, seed int64, spec *e2eSpec, dir string) *e2eOutcome {
 				pendingMut = append(pendingMut, m)
 			}
 		}
-		// never between the sender's last look at a file and its removal: no
-		// file-system interface lets a program close that window
-		if kind != "store:remove" && kind != "cache:done" {
+		// never between the sender's last look at a file and its removal (on any
+		// goroutine): no file-system interface lets a program close that window
+		switch kind {
+		case "store:remove", "cache:done":
+			releasing++
+		case "store:remove:return", "cache:done:return":
+			releasing--
+		}
+		if releasing == 0 {
 			todo, pendingMut = pendingMut, nil
 		}
 		crash := false
@@ -305,6 +312,9 @@ func e2eRun(c *Ctx, seed int64, spec *e2eSpec, dir string) *e2eOutcome {
 			_, serr := os.Stat(filepath.Join(w.outDir, f.Name))
 			if serr == nil && !(known && done) {
 				return false
+			}
+			if tag := w.tagOf(f.Name); serr == nil && tag != nil && tag.Delete && tag.DeleteDelay == 0 {
+				return false // deletion is still to come (e.g. the file was touched and goes round again)
 			}
 		}
 		return true
